@@ -1,7 +1,6 @@
 // ===== TRUSTED PRELUDE (base) =====
 // Everything in this file is an ASSUMPTION: stand-ins for items of /repo that the extracted
 // functions use but never inspect, and for std / dependency items. Listed in every evidence file.
-#![allow(unused_imports, unused_variables, dead_code, unused_macros, non_snake_case, unused_mut, unreachable_code, unused_parens)]
 use vstd::prelude::*;
 use vstd::std_specs::cmp::*;
 use vstd::std_specs::ops::*;
@@ -9,6 +8,7 @@ use std::cmp::Ordering;
 use std::ops::{Add, BitAnd, BitOr, BitXor, Div, Mul, Neg, Not, Rem, Shl, Shr, Sub};
 use std::ops::{AddAssign, DivAssign, MulAssign, SubAssign};
 use std::rc::Rc;
+use std::mem;
 
 // rule 3.2-3: the macro *invocations* in extracted code are untouched; these definitions shadow std's.
 // format!/write! arguments are Display calls without effect on the value that is returned.
@@ -56,4 +56,14 @@ impl NErr {
     pub fn value_error(s: String) -> (r: NErr) ensures err_class(r) == ErrClass::Value { unimplemented!() }
 }
 
+} // verus!
+verus! {
+// ---- std items used by the extracted code (assumed specs; these are std's documented behaviour) ----
+pub assume_specification<T, U, F: FnOnce(T) -> U>[ Option::<T>::map_or ](o: Option<T>, d: U, f: F) -> (r: U)
+    requires o is Some ==> f.requires((o->Some_0,)),
+    ensures o is None ==> r == d, o is Some ==> f.ensures((o->Some_0,), r);
+pub assume_specification[ i64::checked_abs ](x: i64) -> (r: Option<i64>)
+    ensures r == (if x == i64::MIN { None::<i64> } else if x < 0 { Some((-x) as i64) } else { Some(x) });
+pub assume_specification[ i64::signum ](x: i64) -> (r: i64)
+    ensures r == (if x < 0 { -1i64 } else if x == 0 { 0i64 } else { 1i64 });
 } // verus!
